@@ -184,6 +184,48 @@ def run(R):
                    'timer to fire at once, and this later write pushes it out by a whole period - the new data is not announced promptly', site(sh, late[0].ast))
         else:
             R.ok('C18.ORD.2', inst, site(sh, cc))
+    # ------------------------------------------------------------------ ORD.3 a pending emission is not postponed by a whole period
+    R.ob('C18.ORD.3', 'sync_handler restarts the periodic timer only when no emission is already due: new_data() arms the timer for an immediate '
+                      'sync Interest, and a vector handled before the timer task wakes must not push that out by a sync period')
+    inst = sh.qual + ' :: periodic timer reset is conditional on nothing being due'
+    resets = [n for n in sh.cfg.nodes if n.kind == 'stmt' and isinstance(n.ast, ast.Assign) and any(
+        isinstance(t, ast.Attribute) and isinstance(t.value, ast.Name) and t.value.id == 'self' and t.attr == 'next_sync_timing' for t in n.ast.targets)
+        and 'sample_sync_timer' in ast.unparse(n.ast.value)]
+    if resets:
+        # edges taken when an emission is due (next_sync_timing <= now, or the 0 that new_data() stores)
+        notdue = set()
+        for t in sh.cfg.nodes:
+            if t.kind != 'test':
+                continue
+            e = t.ast
+            txt = ast.unparse(e)
+            if txt == 'self.next_sync_timing':
+                notdue.add((t.id, True))
+            elif isinstance(e, ast.Compare) and len(e.ops) == 1 and 'self.next_sync_timing' in (ast.unparse(e.left), ast.unparse(e.comparators[0])):
+                left_is = ast.unparse(e.left) == 'self.next_sync_timing'
+                other = ast.unparse(e.comparators[0] if left_is else e.left)
+                op = type(e.ops[0])
+                if not left_is:
+                    op = {ast.Lt: ast.Gt, ast.Gt: ast.Lt, ast.LtE: ast.GtE, ast.GtE: ast.LtE}.get(op, op)
+                if 'time' in other or other == '0':
+                    if op in (ast.Gt,):
+                        notdue.add((t.id, True))
+                    elif op in (ast.LtE,):
+                        notdue.add((t.id, False))
+                    elif op is ast.NotEq and other == '0':
+                        notdue.add((t.id, True))
+                    elif op is ast.Eq and other == '0':
+                        notdue.add((t.id, False))
+        r_due = sh.cfg.reachable(removed_edges=notdue, follow_exc=False)
+        late = [n for n in resets if n.id in r_due]
+        if late:
+            R.fail('C18.ORD.3', inst, sh.qual, late[0].ast, f'`{norm(late[0].ast)}` runs whatever the pending timer value is: a publish made just before (new_data() sets '
+                   'next_sync_timing = 0 and wakes the timer task) is announced a whole sync period later when a sync Interest that calls for no '
+                   'notification is handled before the timer task runs (repro notes/repro/e15.py)', site(sh, late[0].ast))
+        else:
+            R.ok('C18.ORD.3', inst, site(sh, resets[0].ast))
+    else:
+        R.ok('C18.ORD.3', inst, site(sh, sh.f.node), 'the handler never restarts the periodic timer')
     # ------------------------------------------------------------------ PRV.1 aggregate
     R.ob('C18.PRV.1', 'aggregate: agg_sv[k] = max(agg_sv.get(k, 0), v) - the accumulator reads the container it writes')
     ag = ctx(R, SV + '.aggregate')
